@@ -281,7 +281,7 @@ class Screw:
             new_obj
         """
         if isinstance(other_object, Screw):
-            return Screw(other_object.data - self.data, self.frame_applied.copy())
+            return other_object.__sub__(self)
         if isinstance(other_object, np.ndarray) and len(other_object) == 6:
             return Screw(other_object.reshape((6,1)) - self.data, self.frame_applied.copy())
         return other_object - self.data
